@@ -289,8 +289,8 @@ Definition qsqrt (x : Q) : Q :=
   else Qred (Qmake (Z.sqrt ((n * 2 ^ 128) / Zpos (Qden x))) (2 ^ 64)).
 
 Definition close (tol a b : Q) : bool := Qle_bool (Qabs (a - b)) (tol * (1 + Qabs b))%Q.
-(* the implementation's seven numbers (STD: None = NaN); RMSE and STD are compared through
-   their squares so that the model's final sqrt (2^-64 accurate) is not the limiting factor *)
+(* the implementation's seven numbers (STD: None = NaN) against the model's, each within
+   tol (1 + |v|); the model's square roots are 2^-64 accurate, far below tol *)
 Definition stats_close (tol : Q) (m : @stats Q) (o : @stats Q) : bool :=
   match m, o with
   | (ma, mi, me, md, mr, ms, mstd), (oa, oi, oe, od, or_, os, ostd) =>
